@@ -9,7 +9,8 @@ the MODELS of the sub-algorithms verified by the other properties:
   pm1q, pm1         C16 `check_gcd_factors_inv`, `gcd_factors_prod`,
                         `pm1_result_proper`                                  `UsesPm1`
   ecmauto/ecm/ecm128  C16 `guard_proper`, `check_gcd_factor_proper`          `UsesEcmExits`
-  squfof, sieveUnexpected   — nothing usable —                               `ResidualOK` (kept)
+  squfof            exits of squfof.rs (+ named fact `p_prev < n`)            `UsesSqufofExit`
+  sieveUnexpected   fbase.rs `check_divisors`; `d ≠ n` kept                   `UsesUnexpectedFactor`, `ResidualOK`
 
 Each `Uses…` predicate says "whatever this oracle field returns is an output of the modelled
 function (for SOME inputs of the parts that stay abstract: relations, kernel vectors, value
@@ -20,6 +21,7 @@ import Ymq.Lemmas.FactorTop
 import Ymq.Props.C08
 import Ymq.Props.C11
 import Ymq.Props.C16
+import Mathlib.Tactic.Ring
 
 namespace Ymq.Factor
 
@@ -252,25 +254,99 @@ def UsesEcmExits (o : Oracle σ) : Prop :=
   (∀ t n a b, (o.ecm t n).1 = some (a, b) → EcmExit n a b) ∧
   (∀ t n a b, (o.ecm128 t n).1 = some (a, b) → EcmExit n a b)
 
+/-! ### (6) SQUFOF exits -/
+
+/-- the two exits of `squfof::squfof` (squfof.rs:11-89):
+* `square`: `nsqrt * nsqrt == n`, result `(nsqrt, nsqrt)` (squfof.rs:17-19);
+* `gcd`: `f = gcd(n, p_prev)` under the guard `f > 1`, result `(f, n / f)` (squfof.rs:80-85).
+  The code does NOT test `f < n`; it follows from `0 < p_prev < n`, which is the NAMED FACT left
+  in this constructor. `squfof_pprev_lt` derives it from the size bound of the square-form
+  iteration, `p_prev ≤ 2·isqrt(k·n)` with multiplier `k ≤ 50`, for every `n ≥ 201` (every value
+  that reaches `factor_impl` with a prime factor has all prime factors `≥ 211`). -/
+inductive SqufofExit (n a b : Nat) : Prop
+  | square (r : Nat) : r * r = n → a = r → b = r → SqufofExit n a b
+  | gcd (x : Nat) : 0 < x → x < n → a = Nat.gcd n x → 1 < a → b = n / a → SqufofExit n a b
+
+/-- `2·⌊√(k·n)⌋ < n` for `k ≤ 50`, `n ≥ 201` -/
+theorem squfof_pprev_lt {n k x : Nat} (hn : 201 ≤ n) (hk : k ≤ 50) (hx : x ≤ 2 * Nat.sqrt (k * n)) :
+    x < n := by
+  have hs : Nat.sqrt (k * n) * Nat.sqrt (k * n) ≤ k * n := Nat.sqrt_le (k * n)
+  have hkn : k * n ≤ 50 * n := Nat.mul_le_mul_right n hk
+  rcases Nat.lt_or_ge (2 * Nat.sqrt (k * n)) n with h | h
+  · omega
+  · exfalso
+    have h2 : n * n ≤ (2 * Nat.sqrt (k * n)) * (2 * Nat.sqrt (k * n)) := Nat.mul_le_mul h h
+    have h3 : (2 * Nat.sqrt (k * n)) * (2 * Nat.sqrt (k * n)) =
+        4 * (Nat.sqrt (k * n) * Nat.sqrt (k * n)) := by ring
+    have h4 : n * n ≤ 200 * n := by omega
+    have h5 : 201 * n ≤ n * n := Nat.mul_le_mul_right n hn
+    omega
+
+/-- a proper gcd from the size bound -/
+theorem SqufofExit.gcd_of_bound {n a b k x : Nat} (hn : 201 ≤ n) (hk : k ≤ 50) (hx0 : 0 < x)
+    (hx : x ≤ 2 * Nat.sqrt (k * n)) (ha : a = Nat.gcd n x) (ha1 : 1 < a) (hb : b = n / a) :
+    SqufofExit n a b :=
+  SqufofExit.gcd x hx0 (squfof_pprev_lt hn hk hx) ha ha1 hb
+
+/-- model-free: `f = gcd(n, x)`, `0 < x < n`, `f > 1` ⟹ `f` is a proper divisor -/
+theorem gcd_proper {n x : Nat} (hx0 : 0 < x) (hx : x < n) (h1 : 1 < Nat.gcd n x) :
+    1 < Nat.gcd n x ∧ Nat.gcd n x < n ∧ Nat.gcd n x ∣ n :=
+  ⟨h1, Nat.lt_of_le_of_lt (Nat.le_of_dvd hx0 (Nat.gcd_dvd_right n x)) hx, Nat.gcd_dvd_left n x⟩
+
+theorem SqufofExit.pairOK {n a b : Nat} (hn : 2 ≤ n) (h : SqufofExit n a b) : PairOK n a b := by
+  cases h with
+  | square r hr ha hb =>
+    rw [ha, hb]
+    refine ⟨hr, ?_, ?_⟩ <;>
+    · rcases Nat.lt_or_ge r 2 with h | h
+      · have : r = 0 ∨ r = 1 := by omega
+        rcases this with rfl | rfl <;> omega
+      · exact h
+  | gcd x hx0 hx ha ha1 hb =>
+    subst ha hb
+    obtain ⟨h1, h2, h3⟩ := gcd_proper hx0 hx ha1
+    exact pairOK_of_proper h1 h2 h3
+
+/-- every pair returned by the `squfof` field left through one of the two exits -/
+def UsesSqufofExit (o : Oracle σ) : Prop :=
+  ∀ t n a b, (o.squfof t n).1 = some (a, b) → SqufofExit n a b
+
+/-! ### (7) `UnexpectedFactor` -/
+
+/-- `FBase::check_divisors` (fbase.rs:116-124, reached from `siqs`): `UnexpectedFactor(p)` is a
+factor-base prime `p > MAX_MULTIPLIER` whose stored square root of `k·n` is 0, i.e. `p ∣ k·n`
+with `p ∤ k`: a prime divisor of `n`. -/
+def UsesUnexpectedFactor (o : Oracle σ) : Prop :=
+  ∀ t alg n d, (o.sieve t alg n).1 = .unexpected d → d ∣ n ∧ 2 ≤ d
+
 /-! ### residual -/
 
-/-- What is still ASSUMED (no usable statement in another property):
-* `squfof`: squfof.rs:81-85 returns `(f, n / f)` for `f = gcd(n, p_prev)` under the guard `f > 1`
-  only (no `f < n`); that `f ≠ n` follows from the size of `p_prev` (`< 2·√(k·n)`), which no
-  property proves;
-* `sieveUnexpected`: fbase.rs:116-121 returns `UnexpectedFactor(p)` for a factor-base prime with
-  `n % p == 0`; `d ∣ n` and `2 ≤ d` are immediate, `d < n` needs that the sieved `n` is not itself
-  that prime (it was rejected by `pseudoprime`; with an arbitrary `prime` oracle this is an
-  assumption). -/
+/-- What is still ASSUMED after all the above: the unexpected factor is not the sieved number
+itself (`d ≠ n`; then `d < n` since `d ∣ n`). The code has no such test; it holds because the
+sieve is only started on a number that `pseudoprime` rejected. Two sufficient forms:
+`unexpected_ne_of_composite` (`d` prime, `n` not prime — i.e. `pseudoprime` never rejects a
+prime, C06) and `unexpected_ne_of_size` (`d < B ≤ n` for a bound `B` on factor-base primes). -/
 structure ResidualOK (o : Oracle σ) : Prop where
-  squfof : ∀ s n a b, 2 ≤ n → (o.squfof s n).1 = some (a, b) → PairOK n a b
-  sieveUnexpected : ∀ s alg n d, 2 ≤ n → (o.sieve s alg n).1 = .unexpected d →
-    d ∣ n ∧ 2 ≤ d ∧ d < n
+  unexpectedNotWhole : ∀ s alg n d, 2 ≤ n → (o.sieve s alg n).1 = .unexpected d → d ≠ n
+
+theorem unexpected_ne_of_composite {n d : Nat} (hd : d.Prime) (hn : ¬ n.Prime) : d ≠ n :=
+  fun h => hn (h ▸ hd)
+
+theorem unexpected_ne_of_size {n d B : Nat} (hd : d < B) (hn : B ≤ n) : d ≠ n := by omega
+
+theorem sieveUnexpected_clause {o : Oracle σ} (hu : UsesUnexpectedFactor o) (hres : ResidualOK o) :
+    ∀ s alg n d, 2 ≤ n → (o.sieve s alg n).1 = .unexpected d → d ∣ n ∧ 2 ≤ d ∧ d < n := by
+  intro s alg n d hn h
+  obtain ⟨h1, h2⟩ := hu s alg n d h
+  have hle := Nat.le_of_dvd (by omega) h1
+  have hne := hres.unexpectedNotWhole s alg n d hn h
+  exact ⟨h1, h2, by omega⟩
 
 /-- **the contract from the models** -/
 theorem oracleOK_of_models_aux {o : Oracle σ} (hpp : UsesPerfectPower o) (hfs : UsesFinalStep o)
     (hqs : UsesQs64 o) (hrho : UsesRho64 o) (hpm1 : UsesPm1 o) (hecm : UsesEcmExits o)
-    (hres : ResidualOK o) : OracleOK o where
+    (hsq : UsesSqufofExit o) (hun : UsesUnexpectedFactor o) (hres : ResidualOK o) :
+    OracleOK o where
   pp := pp_clause hpp
   rho := rho_clause hrho
   pm1q := (pm1_clauses hpm1).1
@@ -279,8 +355,8 @@ theorem oracleOK_of_models_aux {o : Oracle σ} (hpp : UsesPerfectPower o) (hfs :
   ecm := fun s n a b hn h => (hecm.2.1 s n a b h).pairOK hn
   ecm128 := fun s n a b hn h => (hecm.2.2 s n a b h).pairOK hn
   qs64 := qs64_clause hqs
-  squfof := hres.squfof
+  squfof := fun s n a b hn h => (hsq s n a b h).pairOK hn
   sieveDivs := sieveDivs_clause hfs
-  sieveUnexpected := hres.sieveUnexpected
+  sieveUnexpected := sieveUnexpected_clause hun hres
 
 end Ymq.Factor
